@@ -52,8 +52,10 @@ A64Jump(e) ==
 
 A64Refused(e) ==
   /\ Req("C15", PatchWrites(e) = {} /\ e.entry = e.before)
-  \* whatever the allocator would accept (|tramp - src| <= 128 MiB on Linux) must be encodable
-  /\ Req("C11", e.isa = "a64-linux" => ~Le(AbsDiff(e.tramp, e.src), R128))
+  \* two cooperating sites: whatever the allocator accepts must be encodable by the branch that is
+  \* then written (else the installation fails with the accepted mapping left behind).
+  \* `alloc_accepts` is what the REAL allocator did for this displacement (native run, same code).
+  /\ Req("C11", ~e.alloc_accepts)
 
 \* ------------------------------------------------------------------ ARM / Thumb
 W4(a) == Slice(a, 1, 4)
